@@ -32,7 +32,7 @@ static void add_metadata (GenCtx &g, J &ops, const Fmt &f, double p, bool string
 	if (strings_only) return ;
 	if (g.rng.chance (p * 0.6)) { J b = mkop ("setbext") ; b ["fill"] = (int) g.rng.below (3) ; b ["hist"] = (long long) g.rng.pick<int64_t> ({ 0, 1, 2, 100, 255, 256, 257, 1000, 4000 }) ; b ["stream"] = (long long) g.rng.below (1000) ; if (g.rng.chance (0.3)) b ["cls"] = "crlf" ; ops.push (b) ; }
 	if (g.rng.chance (p * 0.5)) { J c = mkop ("setcart") ; c ["fill"] = (int) g.rng.below (3) ; c ["tag"] = (long long) g.rng.pick<int64_t> ({ 0, 1, 3, 100, 255, 256, 1000, 4000 }) ; c ["stream"] = (long long) g.rng.below (1000) ; ops.push (c) ; }
-	if (g.rng.chance (p * 0.5)) { J c = mkop ("setcues") ; c ["count"] = (long long) g.rng.pick<int64_t> ({ 0, 1, 2, 3, 10, 50, 99, 100 }) ; c ["stream"] = (long long) g.rng.below (1000) ; ops.push (c) ; }
+	if (g.rng.chance (p * 0.5)) { J c = mkop ("setcues") ; c ["count"] = (long long) g.rng.pick<int64_t> ({ 0, 1, 2, 3, 10, 50, 99, 100, 101, 150, 300 }) ; c ["stream"] = (long long) g.rng.below (1000) ; ops.push (c) ; }
 	if (g.rng.chance (p * 0.5)) { J c = mkop ("setinstr") ; c ["loops"] = (long long) g.rng.pick<int64_t> ({ 0, 1, 2, 8, 16 }) ; c ["stream"] = (long long) g.rng.below (1000) ; ops.push (c) ; }
 	if (g.rng.chance (p * 0.4)) { J c = mkop ("setchanmap") ; c ["stream"] = (long long) g.rng.below (1000) ; ops.push (c) ; }
 	if (chunk_capable (f) && g.rng.chance (p * 0.7)) for (int k = 0, n = (int) g.rng.pick<int> ({ 1, 2, 3, 5, 19, 21, 31, 33 }) ; k < n ; k++)
@@ -113,10 +113,16 @@ static J gen_c15 (uint64_t seed, uint64_t idx)
 	}
 	else if (cls == 2)
 	{	J o = mkop ("open") ; o ["mode"] = "rw" ; o ["expect"] = "any" ; ops.push (o) ;
-		add_writes (g, ops, f, ch, rate, 1, T, cap) ;
-		J s = mkop ("seek") ; s ["off"] = (long long) g.rng.below (16) ; s ["whence"] = 0 ; ops.push (s) ;
-		J r1 = mkop ("read") ; r1 ["T"] = stype_name (T) ; r1 ["fr"] = 1 ; r1 ["n"] = (long long) g.pick_frames (1, ch, cap) ; ops.push (r1) ;
-		add_writes (g, ops, f, ch, rate, 1, T, cap) ;
+		int nrw = (int) g.rng.range (3, 7) ;
+		for (int k = 0 ; k < nrw ; k++)
+		{	uint64_t q = g.rng.below (100) ;
+			if (q < 35) { J w = mkop ("write") ; w ["T"] = stype_name (T) ; if (g.rng.chance (0.5)) w ["fr"] = 1 ; w ["n"] = (long long) g.rng.range (1, 80) ; ops.push (w) ; }
+			else if (q < 65) { J r1 = mkop ("read") ; r1 ["T"] = stype_name (T) ; r1 ["fr"] = 1 ; r1 ["n"] = (long long) g.rng.range (1, 120) ; ops.push (r1) ; }
+			else
+			{	J s = mkop ("seek") ; int wh = (int) g.rng.below (3) ; s ["whence"] = wh ; s ["flag"] = (int) g.rng.pick<int> ({ 0, SFM_READ, SFM_WRITE, SFM_WRITE }) ;
+				s ["off"] = (long long) (wh == 2 ? -(int64_t) g.rng.below (40) : wh == 1 ? g.rng.range (-20, 20) : (int64_t) g.rng.below (300)) ; ops.push (s) ;
+			}
+		}
 		ops.push (mkop ("close")) ;
 	}
 	else
@@ -125,7 +131,7 @@ static J gen_c15 (uint64_t seed, uint64_t idx)
 	}
 	J task = J::obj () ; task ["ops"] = ops ;
 	plan ["tasks"].push (task) ;
-	if (cls == 0)
+	if (cls == 0 || cls == 2)
 	{	// an un-faulted recovery reader (faults are per task) decodes whatever the faulted writer left behind
 		J rops = J::arr () ;
 		J o = mkop ("open") ; o ["mode"] = "r" ; o ["expect"] = "any" ; o ["file"] = "f0.dat" ; o ["route"] = needs_path_route (f) ? "path" : "vio" ; rops.push (o) ;
@@ -173,45 +179,59 @@ static const std::map<std::string, std::string> &owned_c15 ()
 	return o ;
 }
 
-// "data the I/O layer accepted before the failure is not corrupted by later calls": frames accepted by write calls that
-// completed before the faulted op must decode - if the file the writer left behind opens and still reports them - to what the
-// fault-free run decodes. Only for transfer failures (zero / short / EIO / ENOSPC): when the I/O layer lies about positions or
-// lengths it is the layer itself that misplaces bytes.
+// "data the I/O layer accepted before the failure is not corrupted by later calls". After the faulted run a recovery reader
+// decodes what the writer left behind. Every frame that existed before the faulted op must then hold either the value the
+// fault-free run ends with at that position (a later call overwrote it as planned) or the value it had at the instant of the fault
+// (decoded from the store snapshot taken when the fault fired) - anything else was corrupted by a later call. Checked for honest
+// failures only (zero / short / EIO / ENOSPC transfers, failed seeks): when the I/O layer lies about positions or lengths it is the
+// layer itself that misplaces bytes. Frames still held in a partially filled codec block were never handed to the I/O layer.
 static void check_store_prefix (Verdict &v, const J &plan, const Result &r, const Result &base, const Fmt &f)
-{	if (!r.have_fault_snapshot || plan.at ("cfg").gets ("class") != "W" || plan.at ("faults").size () == 0) return ;
+{	std::string cls = plan.at ("cfg").gets ("class") ;
+	// read/write handles are left out on purpose: on the pinned tree failed seeks and short header reads are ignored so widely in
+	// RDWR mode (header rewrite over the audio, writes at a stale position) that the clause would consist of known findings only
+	if (!r.have_fault_snapshot || cls != "W" || plan.at ("faults").size () == 0) return ;
 	if (f.sub >= SF_FORMAT_ALAC_16 && f.sub <= SF_FORMAT_ALAC_32) return ;		// assembled at close
+	if (f.sub == SF_FORMAT_DWVW_12 || f.sub == SF_FORMAT_DWVW_16 || f.sub == SF_FORMAT_DWVW_24) return ;		// bit packer holds a partial word
 	const J &fj = plan.at ("faults") [0] ;
 	int kind = fault_from_name (fj.gets ("kind")) ;
 	if (!(kind == F_VIO_READ_ZERO || kind == F_VIO_READ_SHORT || kind == F_VIO_WRITE_ZERO || kind == F_VIO_WRITE_SHORT || kind == F_FD_READ_EIO ||
-			kind == F_FD_WRITE_EIO || kind == F_FD_WRITE_ENOSPC)) return ;
+			kind == F_FD_WRITE_EIO || kind == F_FD_WRITE_ENOSPC || kind == F_VIO_SEEK_FAIL || kind == F_FD_LSEEK_FAIL)) return ;
 	int fop = (int) fj.geti ("op") ;
 	int ch = (int) plan.at ("cfg").geti ("ch", 1) ;
-	int64_t frames = 0 ;
 	const J &ops = plan.at ("tasks") [0].at ("ops") ;
-	for (size_t k = 0 ; k < r.transcript [0].size () && (int) k < fop && k < ops.size () ; k++)
-	{	const Rec &x = r.transcript [0][k] ;
-		if (x.skipped || x.api.compare (0, 5, "write") != 0 || x.ret <= 0) continue ;
-		frames += ops [k].geti ("fr", 0) ? x.ret : x.ret / ch ;
-	}
-	// frames still held in a partially filled codec block were never handed to the I/O layer
+	int64_t frames = 0 ;
+	for (int k = fop - 1 ; k >= 0 && k < (int) r.transcript [0].size () ; k--) if (r.transcript [0][k].frames >= 0) { frames = r.transcript [0][k].frames ; break ; }
 	int B = block_frames (f, ch, (int) plan.at ("cfg").geti ("sr", 8000)) ;
 	frames = (frames / B) * B ;
-	if (f.sub == SF_FORMAT_DWVW_12 || f.sub == SF_FORMAT_DWVW_16 || f.sub == SF_FORMAT_DWVW_24) return ;		// bit packer holds a partial word
 	std::string fopk = fop >= 0 && fop < (int) ops.size () ? ops [fop].gets ("op") : "" ;
 	std::string where = fopk == "write" ? "@audio_write" : fopk == "cmd" ? "@header_update" : fopk == "close" ? "@close" : "@" + fopk ;
 	auto kb = base.kept.find (1), kr = r.kept.find (1) ;
 	if (kb == base.kept.end () || kr == r.kept.end () || frames == 0) { v.probes ["store_prefix_not_recoverable"] ++ ; return ; }
-	int64_t items = frames * ch ;
-	if ((int64_t) kr->second.size () < items || (int64_t) kb->second.size () < items) { v.probes ["store_prefix_not_recoverable"] ++ ; return ; }
+	// decode the snapshot taken at the instant of the fault
+	J rp = J::obj () ; rp ["profile"] = "C15" ; rp ["seed"] = plan.geti ("seed") ;
+	J c2 = J::obj () ; for (const char *k : { "fmt", "ch", "sr", "data", "T" }) if (plan.at ("cfg").has (k)) c2 [k] = plan.at ("cfg").at (k) ;
+	c2 ["route"] = needs_path_route (f) ? "path" : "vio" ; rp ["cfg"] = c2 ;
+	J tl = J::arr () ; J t0 = J::obj () ; J tops = J::arr () ; t0 ["ops"] = tops ; tl.push (t0) ; tl.push (plan.at ("tasks") [1]) ; rp ["tasks"] = tl ;
+	ExecOpts eo ; eo.preload = &r.fault_snapshot ;
+	Result rs = execute (rp, eo) ;
+	v.absorb (rs) ;
+	static const std::vector<uint64_t> none ;
+	auto ks = rs.kept.find (1) ;
+	const std::vector<uint64_t> &snap = ks == rs.kept.end () ? none : ks->second ;
+	int64_t items = std::min<int64_t> ({ frames * ch, (int64_t) kr->second.size (), (int64_t) kb->second.size () }) ;
+	int64_t compared = 0 ;
 	for (int64_t k = 0 ; k < items ; k++)
-		if (kr->second [k] != kb->second [k])
-		{	Finding fd ; char b [220] ;
-			snprintf (b, sizeof (b), "item %lld of the %lld frames accepted before the fault decodes to 0x%llx after the faulted run, 0x%llx after the fault-free run", (long long) k, (long long) frames,
-				(unsigned long long) kr->second [k], (unsigned long long) kb->second [k]) ;
+	{	if (k >= (int64_t) snap.size ()) break ;		// the snapshot's own header did not cover this frame yet: nothing to compare with
+		compared ++ ;
+		if (kr->second [k] != kb->second [k] && kr->second [k] != snap [k])
+		{	Finding fd ; char b [260] ;
+			snprintf (b, sizeof (b), "item %lld (of %lld frames that existed before the fault) decodes to 0x%llx after the faulted run; fault-free run ends with 0x%llx there, the store at the instant of the fault held 0x%llx",
+				(long long) k, (long long) frames, (unsigned long long) kr->second [k], (unsigned long long) kb->second [k], (unsigned long long) snap [k]) ;
 			fd.sig = make_sig_raw ("C15", "store.prefix", f.name, plan.at ("cfg").gets ("route"), fj.gets ("kind"), "changed" + where) ; fd.detail = b ;
 			v.findings.push_back (fd) ; return ;
 		}
-	v.probes ["store_prefix_checked"] ++ ;
+	}
+	if (compared) v.probes ["store_prefix_checked"] ++ ; else v.probes ["store_prefix_not_recoverable"] ++ ;
 }
 
 static Verdict check_c15 (const J &plan)
@@ -399,9 +419,22 @@ static J gen_c11 (uint64_t seed, uint64_t idx)
 	int B = block_frames (f, ch, rate) ;
 	int nw = (int) g.rng.range (2, 10) ;
 	int64_t cap = 6000 / ch + 4, N = 0 ;
+	bool granular = f.sample_granular () && !f.lossy && f.bits + (f.is_float || f.is_double) > 0 && !(f.sub == SF_FORMAT_DWVW_12 || f.sub == SF_FORMAT_DWVW_16 || f.sub == SF_FORMAT_DWVW_24 || f.sub == SF_FORMAT_DPCM_8 || f.sub == SF_FORMAT_DPCM_16) ;
+	bool rawmix = granular && g.rng.chance (0.15) ;
+	int64_t wrp = 0 ;		// write pointer
 	for (int k = 0 ; k < nw ; k++)
-	{	J w = mkop ("write") ; w ["T"] = stype_name (T) ; if (g.rng.chance (0.5)) w ["fr"] = 1 ;
-		int64_t n = g.pick_frames (B, ch, cap) ; w ["n"] = (long long) n ; N += n ;
+	{	// the writer may go back and overwrite a stretch of what it already wrote: the write pointer then sits behind the end
+		if (granular && N > 2 && g.rng.chance (0.2))
+		{	J s = mkop ("seek") ; int64_t tgt = (int64_t) g.rng.below ((uint64_t) N) ; s ["off"] = (long long) tgt ; s ["whence"] = 0 ; ops.push (s) ; wrp = tgt ;
+			J w = mkop ("write") ; w ["T"] = stype_name (T) ; if (g.rng.chance (0.5)) w ["fr"] = 1 ;
+			int64_t n = g.rng.range (1, std::max<int64_t> (1, std::min<int64_t> (N - tgt, 40))) ; w ["n"] = (long long) n ; ops.push (w) ; wrp += n ;
+			if (autom) ops.push (mkop ("crash")) ;
+			else { J c = mkop ("cmd") ; c ["id"] = "update_header" ; ops.push (c) ; ops.push (mkop ("crash")) ; }
+			if (g.rng.chance (0.7)) { J s2 = mkop ("seek") ; s2 ["off"] = 0 ; s2 ["whence"] = 2 ; ops.push (s2) ; wrp = N ; }
+		}
+		J w = mkop ("write") ; w ["T"] = (rawmix && g.rng.chance (0.5)) ? "raw" : stype_name (T) ; if (g.rng.chance (0.5)) w ["fr"] = 1 ;
+		int64_t n = g.pick_frames (B, ch, cap) ; w ["n"] = (long long) n ;
+		wrp += n ; if (wrp > N) N = wrp ;
 		ops.push (w) ;
 		if (autom) ops.push (mkop ("crash")) ;
 		else if (g.rng.chance (0.6)) { J c = mkop ("cmd") ; c ["id"] = "update_header" ; ops.push (c) ; ops.push (mkop ("crash")) ; }
@@ -525,7 +558,7 @@ static Verdict check_c03 (const J &plan)
 	v.absorb (r) ;
 	static const std::map<std::string, std::string> owned = {
 		{ "open.null_no_error", "open.null_no_error" }, { "info.range", "info.range" }, { "info.format_unknown", "info.range" }, { "inv", "inv" },
-		{ "read.range", "ret.range" }, { "chunk.iter_endless", "budget" }, { "seek.ret#lt_minus1", "ret.range" }, { "budget", "budget" } } ;
+		{ "read.range", "ret.range" }, { "chunk.iter_endless", "budget" }, { "cues.count_exceeds_buffer", "ret.range" }, { "seek.ret#lt_minus1", "ret.range" }, { "budget", "budget" } } ;
 	add_owned (v, "C03", r, owned) ;
 	v.fmt = plan.at ("cfg").gets ("fmt") ; v.route = plan.at ("cfg").gets ("route") ;
 	v.shape = plan_shape (plan) ;
